@@ -40,7 +40,12 @@ ASSUMPTIONS = [
     "midpoint: interior O(h^2) plus a window-edge term of h/2 times the integrand at the window edge",
     "slit with both length and width: the documented 61-point equal-weight rule across the width is part of the "
     "definition; its distance from the continuous double integral is bounded by 1.5/61 of the variation across the width",
-    "all windows lie above the 0.02*q_min cut (folding at q = 0 is decided by C03)",
+    "pinhole windows lie above the 0.02*q_min cut; slit windows with W >= q are folded at q = 0 (|q+v|) and the "
+    "reference integrates only |q'| >= c = 0.02*q_min, the documented lower limit of q_calc: the permitted deficit "
+    "against the uncut integral is the measure of the window below c (width-only: (c - max(q-W,0))^+ plus min(c, W-q) "
+    "for the folded part, over 2W); the first bin edge lies within h/2 of c, which adds h/2 times the integrand at c "
+    "(twice when folded) to the bound; with length the same edge maps to sqrt(h(c+h/4)) in u for the <= 61 c/W + 2 "
+    "width points with |q+v| < c + h/2",
     "2-D: second-moment error bounds 3.5 % (low), 1.5 % (med, high), 0.5 % (xhigh) as stated in DESIGN.md",
 ]
 REFINE = [4.0, 2.0, 1.0, 0.5]
@@ -52,6 +57,8 @@ BOUNDS = {
               "pinhole_sigma_over_q": [0.02, 0.1, 0.3],
               "slit_length_over_qmid": [0.1, 0.8, 5.0], "slit_width_over_qmin": [0.05, 0.3, 0.7],
               "slit_both": "(L/qmid, W/qmin) in (0.8, 0.1), (0.1, 0.5), (5, 0.3)",
+              "slit_width_folded_over_qmin": [5.0, 2.3, 1.2, 1.0],
+              "slit_both_folded": "(L/qmid, W/qmin) in (0.8, 5), (0.3, 1.2), (2, 1), (0.1, 2.3)",
               "intensities": ["const", "linear", "quadratic", "lorentz2", "dampedcos"],
               "accuracy": ACCURACIES, "sigma2d_over_q": [[0.1, 0.03], [0.03, 0.1], [0.2, 0.05], [0.08, 0.08]],
               "forms2d": ["radial", "cross", "aniso"]},
@@ -67,6 +74,10 @@ PIN_SETS = [0.02, 0.1, 0.3]
 LEN_SETS = [0.1, 0.8, 5.0]
 WID_SETS = [0.05, 0.3, 0.7]
 BOTH_SETS = [(0.8, 0.1), (0.1, 0.5), (5.0, 0.3)]
+# folded windows: W exceeds some of the data q (q = qref*(1, 2.3, 6)): 5q0 folds two points, 2.3q0 is exactly q[1]
+# and folds q[0], 1.2q0 folds q[0] only, 1.0q0 is exactly q[0] (window ends on q = 0)
+FOLD_WID_SETS = [5.0, 2.3, 1.2, 1.0]
+FOLD_BOTH_SETS = [(0.8, 5.0), (0.3, 1.2), (2.0, 1.0), (0.1, 2.3)]
 FN_NAMES = ["const", "linear", "quadratic", "lorentz2", "dampedcos"]
 SIG2D = [(0.1, 0.03), (0.03, 0.1), (0.2, 0.05), (0.08, 0.08)]
 FORMS2D = ["radial", "cross", "aniso"]
@@ -94,6 +105,10 @@ def cases(ctx):
         for W in WID_SETS + ([0.15, 0.5] if more else []):
             out.append({"kind": "slit-width", "L": 0.0, "W": W, "fn": fn, "qref": qref, "offset": off})
         for L, W in BOTH_SETS + ([(2.0, 0.6), (0.3, 0.05), (0.05, 0.7)] if more else []):
+            out.append({"kind": "slit-both", "L": L, "W": W, "fn": fn, "qref": qref, "offset": off})
+        for W in FOLD_WID_SETS:
+            out.append({"kind": "slit-width", "L": 0.0, "W": W, "fn": fn, "qref": qref, "offset": off})
+        for L, W in FOLD_BOTH_SETS:
             out.append({"kind": "slit-both", "L": L, "W": W, "fn": fn, "qref": qref, "offset": off})
     for acc in ACCURACIES:
         for s in range(len(SIG2D)):
@@ -168,13 +183,13 @@ def _judge(cv, r, i, qi, h, got, exact, bound, unsmeared, ref_err, what):
     return err
 
 
-def _finish_levels(cv, r, errs, bounds, hs, what):
+def _finish_levels(cv, r, errs, bounds, hs, what, limit=0.3):
     """errs[level][point]; the bound at the finest level must be below 0.3 x the bound at the coarsest
     (i.e. the envelope that was verified really shrinks with h) - a guard on the oracle, not on the code"""
     b = np.array(bounds, float)
     if b.size and np.all(np.isfinite(b)):
         shrink = np.max(b[-1] / np.where(b[0] > 0, b[0], np.inf))
-        if shrink > 0.3:
+        if shrink > limit:
             raise HarnessError("%s: error envelope does not shrink with h (%r)" % (what, shrink))
         r.extra["refinement_ladders_checked"] += 1
 
@@ -253,23 +268,35 @@ def run_pinhole(case, ctx, r):
 # ----------------------------------------------------------------------------------------------
 # slit
 
-def slit_length_exact(t, qi, L):
-    val, err = _quad(lambda u: float(t.f(math.sqrt(qi * qi + u * u))), 0.0, L)
+def slit_length_exact(t, qi, L, cut=0.0):
+    """(1/L) int_0^L f(sqrt(q^2+u^2)) du restricted to sqrt(q^2+u^2) >= cut"""
+    u0 = math.sqrt(max(cut * cut - qi * qi, 0.0))
+    if u0 >= L:
+        return 0.0, 0.0
+    val, err = _quad(lambda u: float(t.f(math.sqrt(qi * qi + u * u))), u0, L)
     return val / L, err / L
 
 
-def slit_width_exact(t, qi, W):
-    val, err = _quad(lambda v: float(t.f(abs(qi + v))), -W, W)
+def slit_width_exact(t, qi, W, cut=0.0):
+    """(1/2W) int_-W^W f(|q+v|) dv restricted to |q+v| >= cut: [max(q-W,0), q+W] once and, when q < W, the
+    folded part [0, W-q] once more"""
+    f = lambda x: float(t.f(x))
+    a = max(qi - W, 0.0, cut)
+    val, err = _quad(f, a, qi + W)
+    if qi < W and W - qi > cut:
+        v2, e2 = _quad(f, cut, W - qi)
+        val, err = val + v2, err + e2
     return val / (2 * W), err / (2 * W)
 
 
-def slit_both_exact(t, qi, L, W):
+def slit_both_exact(t, qi, L, W, cut=0.0):
     """(61-point documented average, continuous double integral, quadrature error, variation across the width)"""
     vk = np.array([k * W / 30.0 for k in range(-30, 31)])
-    Fk, ek = zip(*[slit_length_exact(t, abs(qi + v), L) for v in vk])
+    Fk, ek = zip(*[slit_length_exact(t, abs(qi + v), L, cut) for v in vk])
     Fk = np.array(Fk)
     avg61 = float(np.mean(Fk))
-    dbl, e2 = _quad(lambda v: slit_length_exact(t, abs(qi + v), L)[0], -W, W)
+    pts = [p for p in (-qi - cut, -qi, -qi + cut) if -W < p < W] if qi - W < cut else None
+    dbl, e2 = _quad(lambda v: slit_length_exact(t, abs(qi + v), L, cut)[0], -W, W, points=pts)
     return avg61, dbl / (2 * W), max(max(ek), e2 / (2 * W)), float(Fk.max() - Fk.min())
 
 
@@ -285,26 +312,42 @@ def run_slit(case, ctx, r):
     cv = Conv(r, fk, desc)
     wins = [H.slit_window(qi, L, W) for qi in q]
     lo, hi = min(w[0] for w in wins), max(w[1] for w in wins)
-    if lo <= 2 * H.MIN_ABS_Q * q.min():
-        raise HarnessError("slit window reaches the low-q cut")
+    c = H.MIN_ABS_Q * q.min()                 # documented lower limit of q_calc
+    low = lo <= 2 * c                          # some window reaches the cut (W >= q: folded at q = 0)
+    if low and kind == "slit-length":
+        raise HarnessError("length-only slit window reaches the low-q cut")
+    cut = c if low else 0.0
     h0 = min(min(w[1] - w[0] for w in wins) / 40.0, q.min() / 20.0)
     if kind == "slit-length":
         ex = [slit_length_exact(t, qi, L) for qi in q]
     elif kind == "slit-width":
-        ex = [slit_width_exact(t, qi, W) for qi in q]
+        ex = [slit_width_exact(t, qi, W, cut) for qi in q]
     else:
-        ex4 = [slit_both_exact(t, qi, L, W) for qi in q]
+        ex4 = [slit_both_exact(t, qi, L, W, cut) for qi in q]
+    vk = np.array([k * W / 30.0 for k in range(-30, 31)])
     errs, bnds, hs = [], [], []
     for lev in _levels(ctx):
         h = h0 * lev
-        qc = _grid(lo, hi, h, case.get("offset", 1 / 3.0))
+        if low:
+            # positive uniform grid from (offset x h); the code drops the points below c, so the first bin
+            # edge lies within h/2 of c (or is clipped at 0 when h > 2c)
+            qc = h * (case.get("offset", 1 / 3.0) + np.arange(int(math.ceil((hi + 3 * h) / h)) + 1))
+        else:
+            qc = _grid(lo, hi, h, case.get("offset", 1 / 3.0))
         res = resolution.Slit1D(q.copy(), q_length=L, q_width=W, q_calc=qc)
         with np.errstate(all="ignore"):
             got = np.asarray(res.apply(t.f(np.asarray(res.q_calc, float))), float)
         e, b = [], []
         for i in range(3):
             wl, wh = wins[i]
-            m1 = H.sup_abs(t.d1, wl - h, wh + h)
+            m1 = H.sup_abs(t.d1, max(wl - h, 0.0) if low else wl - h, wh + h)
+            folded = W > q[i]
+            at_cut = low and q[i] - W < c + h
+            f_c = H.sup_abs(t.f, max(c - h, 0.0), c + h, 41) if at_cut else 0.0
+            if folded:
+                r.branch("folded-window")
+            if at_cut:
+                r.branch("window-at-cut")
             if kind == "slit-length":
                 # every u in [0, L] is assigned to the bin that contains sqrt(q^2+u^2), evaluated at its midpoint
                 bound = 1.05 * 0.5 * h * m1
@@ -315,14 +358,26 @@ def run_slit(case, ctx, r):
                 f_lo = H.sup_abs(t.f, wl - h / 2, wl + h / 2, 41)
                 f_hi = H.sup_abs(t.f, wh - h / 2, wh + h / 2, 41)
                 bound = 1.05 * ((2 * W + h) * m2 * h * h / 24.0 + max(0.5 * h * (f_lo + f_hi), m1 * h * h)) / (2 * W)
+                if low:
+                    # every bin is clipped to the (folded) window and evaluated within h/2 of each of its points;
+                    # the first edge is within h/2 of the cut c, counted twice where the folded part covers it
+                    bound = 1.05 * (0.5 * h * m1 + ((2 if folded else 1) * 0.5 * h * f_c / (2 * W) if at_cut else 0.0))
                 e.append(_judge(cv, r, i, q[i], h, got[i], ex[i][0], bound, float(t.f(q[i])), ex[i][1], "Slit1D.apply(f)"))
             else:
                 avg61, dbl, qerr, var = ex4[i]
                 inner = 1.05 * 0.5 * h * m1
+                if at_cut:
+                    # width points with |q+v_k| < c + h/2 lose/gain at most sqrt(|e0^2 - c^2|) <= sqrt(h (c + h/4)) in u
+                    nk = int(np.sum(np.abs(q[i] + vk) < c + 0.5 * h))
+                    inner += 1.05 * (nk / 61.0) * min(1.0, math.sqrt(h * (c + 0.25 * h)) / L) * f_c
                 e.append(_judge(cv, r, i, q[i], h, got[i], avg61, inner, float(t.f(q[i])), qerr,
                                 "Slit1D.apply(f) vs the documented 61-point average of the length integral"))
                 # and against the continuous double integral, with the stated floor of the 61-point rule
-                floor = 1.5 * var / 61.0
+                floor = (3.0 if folded or at_cut else 1.5) * var / 61.0     # F(|q+v|) has a kink at v = -q when folded
+                if at_cut:
+                    # the continuous integral loses the part of the window below c even when none of the 61 width
+                    # points falls there: at most 2c of the 2W wide v range, each losing at most min(1, c/L)
+                    floor += 1.05 * (c / W) * min(1.0, c / L) * f_c
                 if np.isfinite(got[i]) and qerr <= 1e-9 * abs(dbl) and abs(got[i] - dbl) > inner + floor + 1e-12 * abs(dbl):
                     cv.bad("double-integral", "h=%r: point %d q=%r: %.15g vs double integral %.15g; |error| %.3g exceeds "
                            "inner bound %.3g + width-rule floor %.3g" % (h, i, q[i], got[i], dbl, abs(got[i] - dbl), inner, floor))
@@ -333,8 +388,10 @@ def run_slit(case, ctx, r):
         hs.append(h)
         r.trans += 1
     if case["fn"] != "const":
-        _finish_levels(cv, r, errs, bnds, hs, desc)
+        _finish_levels(cv, r, errs, bnds, hs, desc, 0.45 if low else 0.3)
     r.branch(kind)
+    if low:
+        r.branch(kind + ":folded")
     if not r.samples:
         r.sample({"call": desc, "h": hs, "abs_error_point0": [None if e[0] is None else float(e[0]) for e in errs],
                   "bound_point0": [float(b[0]) for b in bnds]})
@@ -435,5 +492,9 @@ def finish(ctx, report):
     for a in ACCURACIES:
         report.require("p2d:" + a, len(SIG2D) * len(FORMS2D), "2-D accuracy level")
     report.require("nontrivial", 500, "smeared value differs from the unsmeared one")
+    report.require("slit-width:folded", 15, "width-only slit with W >= q (window folded at q = 0)")
+    report.require("slit-both:folded", 15, "width+length slit with W >= q (window folded at q = 0)")
+    report.require("folded-window", 100, "data points whose window is folded at q = 0 (q < W)")
+    report.require("window-at-cut", 100, "data points whose window reaches the 0.02*q_min cut")
     if report.inconclusive > 0.05 * max(report.evals, 1):
         report.vacuous.append("%d of %d evaluations inconclusive" % (report.inconclusive, report.evals))
